@@ -41,7 +41,8 @@ const c03Node = "node-1"
 // c03K8s is k8s.Kubernetes over the shared fake API server (pods are the API objects themselves).
 type c03K8s struct {
 	verifK8s
-	c client.Client
+	c         client.Client
+	failExist bool // the confirming pod lookups of the running GC pass fail
 }
 
 func (k *c03K8s) podObj(ns, name string) *corev1.Pod {
@@ -60,7 +61,12 @@ func (k *c03K8s) GetPod(ctx context.Context, ns, name string, cache bool) (*daem
 	}
 	return nil, fmt.Errorf("pod %s/%s not found", ns, name)
 }
-func (k *c03K8s) PodExist(ns, name string) (bool, error) { return k.podObj(ns, name) != nil, nil }
+func (k *c03K8s) PodExist(ns, name string) (bool, error) {
+	if k.failExist {
+		return false, fmt.Errorf("simulated API server failure reading pod %s/%s", ns, name)
+	}
+	return k.podObj(ns, name) != nil, nil
+}
 func (k *c03K8s) GetLocalPods() ([]*daemon.PodInfo, error) {
 	l := &corev1.PodList{}
 	if err := k.c.List(context.Background(), l); err != nil {
@@ -173,7 +179,7 @@ func (w *c03W) Enabled() []string {
 			evs = append(evs, fmt.Sprintf("DEL:%d", i))
 		}
 	}
-	evs = append(evs, "reconcile", "reconcile/updateFails", "ctlRestart", "flush", "flush/fails", "syncDeleted", "daemonGC", "daemonRestart", "clock+gc")
+	evs = append(evs, "reconcile", "reconcile/updateFails", "ctlRestart", "flush", "flush/fails", "syncDeleted", "daemonGC", "daemonGC/lookupFails", "daemonRestart", "clock+gc")
 	return evs
 }
 
@@ -271,6 +277,10 @@ func (w *c03W) Apply(x *vrt.Exec, evn string) {
 		_ = w.crd.VerifSyncDeletedPods(ctx)
 	case "daemonGC":
 		_ = w.svc.gcPods(ctx)
+	case "daemonGC/lookupFails":
+		w.k.failExist = true
+		_ = w.svc.gcPods(ctx)
+		w.k.failExist = false
 	case "daemonRestart":
 		w.startDaemon()
 	case "clock+gc":
@@ -281,13 +291,17 @@ func (w *c03W) Apply(x *vrt.Exec, evn string) {
 	vrt.WaitQuiescent()
 	vrt.Advance(time.Second)
 	afterN, afterRT := w.node(), w.rt()
-	if evn == "daemonGC" {
+	if evn == "daemonGC" || evn == "daemonGC/lookupFails" {
 		// what the GC pass queued (or wrote) for pods the API reported absent when it ran
 		for _, uid := range w.crd.VerifPending() {
 			if pendBefore[uid] || w.delSeen[uid] {
 				continue
 			}
 			// queued by this GC pass: only legitimate for a pod the API reported absent when the pass ran
+			if evn == "daemonGC/lookupFails" {
+				x.Failf("C03/teardown-queued-without-verified-absence", "agent GC queued a teardown report for uid %s although every pod lookup of that pass failed (nothing was confirmed absent); %s", uid, hist)
+				continue
+			}
 			stillLive := false
 			for name, u := range livePods {
 				if u == uid {
@@ -410,8 +424,14 @@ func (w *c03W) Canon() string {
 			recs = append(recs, w.podName(i)+"="+u)
 		}
 	}
-	for uid := range rtm.Status.Pods {
-		rts = append(rts, uid+"="+c03Final(rtm, uid))
+	for uid, st := range rtm.Status.Pods {
+		e := uid + "=" + c03Final(rtm, uid)
+		// the agent's GC treats an 'initial' entry differently once it is 30 s old: the age class is part of the state
+		// (without it a clock step looks like a self-loop and what only happens afterwards is never explored)
+		if fs, last, ok := utils.RuntimeFinalStatus(st.Status); ok && fs == networkv1beta1.CNIStatusInitial && last != nil && !vrt.TimeNow().Before(last.LastUpdateTime.Add(30*time.Second)) {
+			e += "(>=30s)"
+		}
+		rts = append(rts, e)
 	}
 	sort.Strings(rts)
 	pend := w.crd.VerifPending()
@@ -469,7 +489,7 @@ func TestVerifC03(t *testing.T) {
 	if ev.Thorough() {
 		depth = 9
 	}
-	r.Rule(fmt.Sprintf("breadth-first search to depth %d (from the empty cluster and from a root with a bound, set-up pod) over events of BOTH processes on one fake API server: kubelet {podCreate, podRemove (also before DEL = force delete; create after remove = same name, new UID)}, node agent = real networkService in CRD mode + real CRDV2 {ADD, DEL, flush of the teardown report (optionally with the API write failing), syncDeletedPods, agent GC (cleanRuntimeNode), agent restart}, control plane = real ReconcileNode {reconcile, reconcile with failing status update, restart, clock}; transition invariants: an address bound to (pod, uid) is unbound / marked Deleting / unassigned only if no pod of that name exists AND NodeRuntime reports uid as deleted; a teardown report appears only for a uid whose DEL this agent instance processed or whose pod is absent; closure from every state: pod gone + DEL processed => address freed within 6 healthy rounds", depth))
+	r.Rule(fmt.Sprintf("breadth-first search to depth %d (from the empty cluster and from roots with a bound pod, set up or not yet set up on the node, a recreated pod, two pods) over events of BOTH processes on one fake API server: kubelet {podCreate, podRemove (also before DEL = force delete; create after remove = same name, new UID)}, node agent = real networkService in CRD mode + real CRDV2 {ADD, DEL, flush of the teardown report (optionally with the API write failing), syncDeletedPods, agent GC (cleanRuntimeNode; also with its confirming pod lookups failing), agent restart}, control plane = real ReconcileNode {reconcile, reconcile with failing status update, restart, clock}; transition invariants: an address bound to (pod, uid) is unbound / marked Deleting / unassigned only if no pod of that name exists AND NodeRuntime reports uid as deleted; a teardown report appears only for a uid whose DEL this agent instance processed or whose pod is absent; closure from every state: pod gone + DEL processed => address freed within 6 healthy rounds", depth))
 	if rp := os.Getenv("VERIF_REPLAY"); rp != "" {
 		b, _ := os.ReadFile(rp)
 		var doc struct {
@@ -502,6 +522,8 @@ func TestVerifC03(t *testing.T) {
 	roots := [][]string{
 		{},
 		{"podCreate:0", "reconcile", "reconcile", "ADD:0"},
+		// bound by the controller, not yet set up on the node (no local record)
+		{"podCreate:0", "reconcile", "reconcile"},
 		{"podCreate:0", "reconcile", "reconcile", "ADD:0", "podRemove:0", "podCreate:0"},
 		{"podCreate:0", "podCreate:1", "reconcile", "reconcile", "ADD:0", "ADD:1", "DEL:0"},
 	}
@@ -546,7 +568,7 @@ func (w *c03W) alphabet() []string {
 	for i := 0; i < w.npods; i++ {
 		evs = append(evs, fmt.Sprintf("podCreate:%d", i), fmt.Sprintf("podRemove:%d", i), fmt.Sprintf("ADD:%d", i), fmt.Sprintf("DEL:%d", i))
 	}
-	return append(evs, "reconcile", "reconcile/updateFails", "ctlRestart", "flush", "flush/fails", "syncDeleted", "daemonGC", "daemonRestart", "clock+gc")
+	return append(evs, "reconcile", "reconcile/updateFails", "ctlRestart", "flush", "flush/fails", "syncDeleted", "daemonGC", "daemonGC/lookupFails", "daemonRestart", "clock+gc")
 }
 
 
